@@ -74,6 +74,12 @@ CHECKS = {
                   '(ok / ValueError / LookupError, nothing else), equality of accepted alternative spellings with the canonical spelling, the '
                   'accepted symbols against the C01-C03 clauses, serialiser refusals per kind, and the exit status / stderr contract of the '
                   'command line tool (in-process and as subprocess).', ref='6 C14'),
+ 'C15': dict(tech='TLA+ purity / ownership model (spec/Purity.tla) model-checked over all interleavings; TLC-generated schedules replayed with real threads (deterministic baton scheduler); execution logs validated by TLC (Trace_Purity)',
+             text='The model (threads x pipeline stages x object ownership) is checked exhaustively for 2 threads / 3 calls (tables constant, '
+                  'returned symbols immutable, own writes only, deterministic); the deviation of a shared scratch object is found by TLC '
+                  '(negative control). Every call of a 60-call alphabet gets a reference in a fresh interpreter; ordered pairs and longer '
+                  'histories, TLC schedules with <= 2 context switches and seeded line-level pre-emptions are executed and every logged step '
+                  'is validated by TLC against the model state.', ref='6 C15'),
 }
 
 NOT_YET = {}
